@@ -423,7 +423,8 @@ fn gen_history(out: &mut Out, rng: &mut Rng) {
 }
 
 fn replay(args: &Args, path: &str) {
-    let v: Value = serde_json::from_str(&std::fs::read_to_string(path).expect("replay file")).expect("json");
+    let text = std::fs::read_to_string(path).or_else(|_| std::fs::read_to_string(format!("../{}", path))).expect("replay file");
+    let v: Value = serde_json::from_str(&text).expect("json");
     let f = if v.get("failing_input").is_some() { v["failing_input"].clone() } else { v.clone() };
     let period: u64 = f["unbonding_period"].as_str().and_then(|s| s.parse().ok()).unwrap_or(1_000);
     let growth: u128 = f["growth_rate"].as_str().and_then(|s| s.parse().ok()).unwrap_or(DEC_ONE);
